@@ -1,5 +1,8 @@
 """C12 — OCP cost, adjoint gradient and masked Riccati (Gauss-Newton) step are exact.
-proof: Properties_C12.v (Ocp.v at nat / at the real instance);
+proof: Properties_C12.v (Ocp.v at nat / at the real instance; C12_generated_*: the same for the code regenerated from the source);
+translator G13: translate/gen_ocp.py -> coq/gen/OcpGen.v (OCPVariables layout, per-stage bodies / loops / iteration orders of forward, backward,
+                factor_masked, solve_masked); OcpGenEq.v proves every generated piece equal to Ocp.v's (a broken equality is reported by name);
+                Corr_OcpGen.chk12g runs the generated definitions at binary64 against the same implementation records;
 correspondence: Ocp.v at binary64 (Corr_C12.chk12) vs drv_C12 (IndexSet, OCPVariables, OCPEvaluator::forward/backward,
                 StatefulLQRFactor::factor_masked/solve_masked), problem functions teacher-forced;
 oracle (independent of the Coq model and of the C++ derivatives): roll-out cost recomputed here; gradient by complex-step
@@ -7,6 +10,9 @@ differentiation of that roll-out; Riccati step vs a condensed dense solve (plain
 evaluated here."""
 import math
 from vf.core import *
+from vf import gentie        # translator G13: translate/gen_ocp.py -> coq/gen/OcpGen.v (OcpGenEq.v: generated = Ocp.v)
+
+OCPGEN = gentie.Tie("translator_ocp", "gen_ocp.py", "OcpGen", "OcpGen.ref.v", "OcpGenEq", [], "Ocp.v")
 
 INF = float("inf")
 
@@ -556,7 +562,19 @@ def run(ctx):
         "the chain rule is assumed: the theorem states that the backward sweep equals the transposed linearised roll-out for the given A_k, B_k, q_k, r_k",
         "the dense factorisation (Eigen LDLT / PartialPivLU) is a parameter `lsolve` with hypothesis R̄·lsolve(R̄,b) = b for the reduced Hessians that occur",
         "Riccati: KKT system of the subproblem (no convexity needed) and, under R̄_k positive definite for every stage with symmetric Q_k, R_k, Q_N, unique global minimality (C12_riccati_step_is_minimiser / _is_unique_minimiser); positive definiteness of R̄_k is a hypothesis, the generators use SPD stage Hessians"]
-    check_properties(ctx)
+    gentie.translate(ctx, OCPGEN)                  # tie 1: regenerate coq/gen/OcpGen.v from core.REPO; status -> ctx.coverage["translator_ocp"]
+    ok = check_properties(ctx)                     # Properties_C12.v requires OcpGenEq.v (generated = hand model, piece by piece)
+    if not ok:
+        gentie.name_obligations(ctx, OCPGEN)       # name every OcpGenEq obligation that no longer checks
+    gentie.account_eq(ctx, OCPGEN, ok)
+    ctx.assumptions += [
+        "translator G13 (gen_ocp.py): rvec / crvec arguments and vec members are flat buffers, segment / topRows / bottomRows / vars.xk(..) are views "
+        "(read = seg, write = put on the current buffer, no store forwarding); `mmat X{w.data(), r, c}` over a work array is a fresh matrix that is assigned "
+        "before it is read (checked by the translator); gain_K.col(i) / e.col(i).topRows(nJ) are slot i of a per-stage store, written and read with the same "
+        "shape (same J(i) in factor_masked and solve_masked); LDLT / PartialPivLU .solve are the parameter lsolve (columnwise for a matrix); min_rcond is not translated",
+        "generated piece = hand model piece is proved over ideal reals (OcpGenEq.v: storage laid out by the generated offsets, problem functions returning vectors of "
+        "the declared sizes, Jacobian products = transposed products with the matrices the model is stated with, LQR callables adding the masked blocks of the stage data); "
+        "binary64 agreement of the generated functions with the implementation is checked by Corr_OcpGen.chk12g on the same records (independent of the hand model)"]
     if not build_driver(ctx, "C12"):
         return
     cases = gen_cases(ctx)
@@ -604,3 +622,8 @@ def run(ctx):
                               "model": getattr(ctx, "last_dump", "")}))
     elif failing is not None:
         ctx.coverage["correspondence_disagreements"] = 0
+    # translation validation: the GENERATED definitions (offsets, per-stage bodies, loops) against the same implementation records
+    def describe(i):
+        k = idx[i]
+        return "%s case, %s: %s" % (cases[k]["op"], terms[i].split()[0].strip("("), to_input(cases[k])[:1500])
+    gentie.validate(ctx, OCPGEN, "gencorr", "Ocp OcpGenLib OcpGen Corr_C12 Corr_OcpGen", "c12case", "chk12g", terms, "model12g", describe, shard=120)
